@@ -9,7 +9,7 @@ PROP = 'C19'
 CHECK_MODS = ['Model.VTable', 'Model.Vacuum', 'Checks.C19chk']
 CASE_TYPE = 'C19_case'
 CORR, PROPCHK = 'C19_corr', 'C19_prop'
-THEOREMS = ['C19_only_redundant_rows_deleted', 'C19_first_kept', 'C19_changed_kept', 'C19_as_of_preserved', 'C19_vacuum_is_survivors', 'C19_code_pass_is_model', 'C19_code_pass_sorted', 'C19_code_pass_example', 'C19_example', 'C19_as_of_example']
+THEOREMS = ['C19_only_redundant_rows_deleted', 'C19_first_kept', 'C19_changed_kept', 'C19_as_of_preserved', 'C19_vacuum_is_survivors', 'C19_second_vacuum_deletes_nothing', 'C19_code_pass_is_model', 'C19_code_pass_sorted', 'C19_code_pass_example', 'C19_example', 'C19_as_of_example']
 RULE = ('random version tables (both strategies, flat/composite keys, default/custom column names) with sticky values so '
         'that equal neighbours and A,B,A / A,B,A,A patterns are frequent, first versions that are UPDATEs; vacuum(session, '
         'Article) is called (and, on a joined-table hierarchy TextItem <- Article whose rows are loaded into both version tables, '
